@@ -96,6 +96,9 @@ func (c *Check) popShape(fn *ssa.Function, fields []string, caps map[string]int6
 		if v == peek {
 			return true
 		}
+		if lv := r.LoadedValue(v); lv != v {
+			return walk(lv)
+		}
 		switch x := v.(type) {
 		case *ssa.Phi:
 			for _, e := range x.Edges {
